@@ -80,6 +80,10 @@ func TestVX_C19(t *testing.T) {
 	timeouts := []time.Duration{200 * time.Millisecond, 500 * time.Millisecond, 2 * time.Second}
 	var jobs []func()
 	i := 0
+	reps := 1
+	if mc.Thorough() {
+		reps = 3 // the outcome of "exit vs deadline" races is timing dependent: repeat every pair
+	}
 	for _, c := range cases {
 		for _, to := range timeouts {
 			i++
@@ -87,12 +91,14 @@ func TestVX_C19(t *testing.T) {
 				continue
 			}
 			c, to := c, to
-			jobs = append(jobs, func() { vxC19One(rep, c, to, guard) })
+			for r := 0; r < reps; r++ {
+				jobs = append(jobs, func() { vxC19One(rep, c, to, guard) })
+			}
 		}
 	}
 	vcmd.RunAll(jobs, 15*time.Millisecond)
 	rep.Evaluations = int64(len(jobs))
-	rep.AddDistinct(int64(len(jobs))) // (failure mode, timeout) pairs, enumerated once each
+	rep.AddDistinct(int64(len(jobs) / reps)) // (failure mode, timeout) pairs, enumerated once each (x reps repetitions in thorough)
 	rep.Configs = int64(len(cases))
 	var names []string
 	for _, c := range cases {
